@@ -812,8 +812,10 @@ def run_history(recipe, ops, check_inv=True, check_fresh=True, check_shadow=True
         # --- freshness of every cached box
         if check_fresh:
             for c, cached, fresh, att in stale_caches(w):
-                step_problems.append(("C14", "C14/bbox-stale-after/%s%s" % (op[0], "" if att else "/detached-node"),
-                                      "node %d caches %s, a fresh computation gives %s" % (c, cached, fresh)))
+                sig = ("C14/bbox-stale-after/%s" % op[0]) if att else "C14/bbox-stale/detached-node-with-stale-parent"
+                step_problems.append(("C14", sig,
+                                      "after %s node %d caches %s, a fresh computation gives %s"
+                                      % (op_str(op), c, cached, fresh)))
         if root and step_problems:
             step_problems = [(root[0], root[1], "; ".join(p[2] for p in step_problems)[:600])]
         for prop, sig, what in step_problems:
